@@ -70,6 +70,7 @@ type bundleOpts struct {
 	extraExpr       func(e *scopedExprGen, depth int, t ty) (string, bool)  // consulted first by expr()
 	extraValue      func(g *bundleGen, t ty) (interface{}, bool)            // consulted first by valueOf()
 	allParams       bool                                                    // dataFor supplies optional params too
+	ij         bool // expressions may read $ij.n / $ij.s (interpreter checks)
 }
 
 func typeOfName(n string) ty {
@@ -191,6 +192,23 @@ func (e *scopedExprGen) lit(t ty) string {
 }
 
 func (e *scopedExprGen) atom(t ty) string {
+	if e.g.opts.illTyped > 0 && e.g.r.Intn(100) < e.g.opts.illTyped {
+		// ill-typed on purpose (interpreter totality checks): an operand of a random type, or a malformed call
+		if e.g.r.Intn(4) == 0 {
+			return illCalls[e.g.r.Intn(len(illCalls))]
+		}
+		t = paramTypes[e.g.r.Intn(len(paramTypes))]
+	}
+	if e.g.opts.ij && e.g.r.Intn(12) == 0 {
+		switch t {
+		case tInt:
+			return "$ij.n"
+		case tStr:
+			return "$ij.s"
+		case tMap:
+			return "$ij"
+		}
+	}
 	if t == tAny {
 		t = scalarTypes[e.g.r.Intn(len(scalarTypes))]
 	}
@@ -267,6 +285,12 @@ func (e *scopedExprGen) expr(depth int, t ty) string {
 	return e.atom(t)
 }
 
+// malformed calls used when bundleOpts.illTyped > 0
+var illCalls = []string{"length()", "length(1, 2)", "min(1)", "max(1, 2, 3)", "range(0, 3, 0)", "range(1, 2, -1)", "range()", "noSuchFunc(1)", "index(1)", "isFirst()", "isLast('x')",
+	"round('x')", "round(1.5, 'x')", "keys([1])", "augmentMap([:], 1)", "strContains(1, 2)", "floor(null)", "ceiling([])", "hasData(1)", "isNonnull()", "7 % 0", "(1 / 0) % 2", "-'x'", "$ij.zz.y", "$ij.s.x", "$ij[0]", "$ij.n[1]"}
+
+var illDirectives = []string{"|truncate", "|truncate:'x'", "|truncate:3,4", "|truncate:-1", "|insertWordBreaks", "|insertWordBreaks:'a'", "|escapeHtml:1", "|noSuchDirective", "|bidiSpanWrap", "|json", "|truncate:1,true,3", "|insertWordBreaks:0", "|insertWordBreaks:-5"}
+
 // ---- commands ----
 
 func (g *bundleGen) stat(k string) { g.stats[k]++ }
@@ -310,6 +334,10 @@ func (g *bundleGen) print(s *gScope, depth int) string {
 			g.stat("directive-chain>=3")
 		}
 		g.stat("directive")
+	}
+	if g.opts.illTyped > 0 && g.r.Intn(100) < g.opts.illTyped/2 {
+		dir += illDirectives[g.r.Intn(len(illDirectives))]
+		g.stat("ill-directive")
 	}
 	switch g.r.Intn(6) {
 	case 0:
@@ -377,6 +405,11 @@ func (g *bundleGen) cmd(s *gScope, depth int) string {
 			vals := (&scopedExprGen{g, s}).lit(t)
 			if r.Intn(3) == 0 {
 				vals += ", " + (&scopedExprGen{g, s}).lit(t)
+			}
+			if r.Intn(3) == 0 {
+				// a case value may be any expression, e.g. a variable (possibly the only use of a param)
+				vals += ", " + g.expr(s, 1, t)
+				g.stat("case-value-expr")
 			}
 			out += "\n{case " + vals + "}" + g.block(s, depth-1)
 		}
@@ -603,9 +636,9 @@ func newBundleGen(r *RNG, opts bundleOpts) *bundleGen {
 func (g *bundleGen) bundle() *gBundle {
 	g.all = nil
 	b := &gBundle{}
-	nf := 1 + g.r.Intn(3)
+	nf := 1 + g.r.Intn(4)
 	for i := 0; i < nf; i++ {
-		f := &gFile{name: fmt.Sprintf("f%d.soy", i), ns: []string{"ns.a", "ns.b", "other"}[i]}
+		f := &gFile{name: fmt.Sprintf("f%d.soy", i), ns: []string{"ns.a", "ns.a.sub", "ns.b", "other"}[i]}
 		switch g.r.Intn(5) {
 		case 0:
 			f.autoesc = "false"
